@@ -16,7 +16,7 @@ Reset == /\ phase # "Drifted" /\ total > 0 /\ UserReset /\ UNCHANGED lastDrift
 Next == Sample \/ Reset
 Spec == Init /\ [][Next]_vars
 Bound == TLCGet("level") <= Depth
-LC == INSTANCE Lifecycle WITH RestartTo <- 0, Incs <- {1}, HasRecs <- FALSE, EpochBound <- TRUE, RefRestart <- FALSE,
+LC == INSTANCE Lifecycle WITH ltab <- [restart |-> 0, incs |-> {1}, hasrecs |-> FALSE, epochbound |-> TRUE, refrestart |-> FALSE],
         state <- st, recs <- <<-1, -1>>, warm <- (phase \in {"Monitor", "Drifted"})
 LCSpec == LC!Spec
 TypeOK == LC!TypeOK /\ st # "warning"
